@@ -442,13 +442,21 @@ pub fn run_scenario(
             match witness {
             Err(_) => None, // the caller cannot even form a witness: no proof
             Ok(w) => {
-                let mut ext = RngModel::new(mb["rng"].as_str().unwrap_or("chacha"), ctx.run_seed ^ sidx.wrapping_mul(0x100000001b3) ^ (bkey << 32) ^ rvar.wrapping_mul(0x9e3779b97f4a7c15));
+                let rk = mb["rng"].as_str().unwrap_or("chacha");
+                let mut ext = RngModel::new(if rk == "os" { "chacha" } else { rk }, ctx.run_seed ^ sidx.wrapping_mul(0x100000001b3) ^ (bkey << 32) ^ rvar.wrapping_mul(0x9e3779b97f4a7c15));
                 if rec.is_some() {
                     merlin::trace::start();
                     grec_start();
                 }
                 let mut tr = mk_transcript(label);
-                let r = catch_unwind(AssertUnwindSafe(|| RangeProof::<P>::prove_with_rng(&mut tr, &stmt, &w, &mut ext)));
+                let use_os = mb["rng"].as_str() == Some("os");
+                let r = catch_unwind(AssertUnwindSafe(|| {
+                    if use_os {
+                        RangeProof::<P>::prove(&mut tr, &stmt, &w) // the convenience entry point with the operating system's RNG
+                    } else {
+                        RangeProof::<P>::prove_with_rng(&mut tr, &stmt, &w, &mut ext)
+                    }
+                }));
                 let (mev, gev) = if rec.is_some() { (merlin::trace::stop(), grec_stop()) } else { (vec![], Default::default()) };
                 match r {
                     Err(e) => {
@@ -549,6 +557,11 @@ pub fn run_scenario(
                 if q.to_bytes() != bytes {
                     out.verify = "recode".into();
                     out.detail = format!("member {}: decoded proof re-encodes differently", mi);
+                    return (out, built);
+                }
+                if !altered && (q != p || q.extension_degree() as usize != built[mi].t || q.clone() != q) {
+                    out.verify = "recode".into();
+                    out.detail = format!("member {}: decode(encode(proof)) is not equal to the proof", mi);
                     return (out, built);
                 }
                 vproofs.push(q)
